@@ -1117,6 +1117,9 @@ func vsGen(r *vu.Rng, size int) *vsCluster {
 		}
 		c.Routes = append(c.Routes, rt)
 	}
+	if r.Chance(2, 3) {
+		vsCohere(r, c)
+	}
 	return c
 }
 
@@ -1239,4 +1242,108 @@ func vsGenRequests(r *vu.Rng, c *vsCluster, n int) []vsRequest {
 		out = append(out, q)
 	}
 	return out
+}
+
+// vsCohere repairs most of the reasons for which a drawn state attaches nothing (two states in three go through
+// it, so that the bulk of the cases exercises servers, locations and upstreams and not only rejections): the class
+// is ours, certificates exist, ports fit protocols, parentRefs point at existing Gateways and listeners.
+func vsCohere(r *vu.Rng, c *vsCluster) {
+	if len(c.Classes) > 0 && (c.Classes[0].Name != vpClassName || c.Classes[0].Controller != vpCtlrName) {
+		c.Classes[0] = vsClass{Name: vpClassName, TS: 1, Controller: vpCtlrName}
+	}
+	for gi := range c.Gateways {
+		g := &c.Gateways[gi]
+		used := map[string]bool{}
+		var ls []vsListener
+		for _, l := range g.Listeners {
+			if l.Port == 9113 {
+				l.Port = 8081
+			}
+			if l.Proto == "HTTP" && l.Port == 443 {
+				l.Port = 80
+			}
+			if l.Proto == "HTTPS" && l.Port == 80 {
+				l.Port = 443
+			}
+			if l.Cert != nil {
+				l.Cert = &vsCertRef{Name: []string{"cert-a", "cert-b"}[r.Intn(2)]}
+				found := false
+				for si := range c.Secrets {
+					if c.Secrets[si].NS == g.NS && c.Secrets[si].Name == l.Cert.Name {
+						c.Secrets[si].OK = true
+						found = true
+					}
+				}
+				if !found {
+					c.Secrets = append(c.Secrets, vsSecret{NS: g.NS, Name: l.Cert.Name, OK: true})
+				}
+			}
+			if l.From != "All" && r.Chance(2, 3) {
+				l.From = "All"
+				l.Selector = nil
+			}
+			if l.HasKinds && r.Chance(3, 4) {
+				l.HasKinds = false
+				l.Kinds = nil
+			}
+			h := ""
+			if l.Host != nil {
+				h = *l.Host
+			}
+			key := l.Proto + strconv.Itoa(int(l.Port)) + h
+			if used[key] {
+				continue
+			}
+			used[key] = true
+			ls = append(ls, l)
+		}
+		g.Listeners = ls
+	}
+	for ri := range c.Routes {
+		rt := &c.Routes[ri]
+		seen := map[string]bool{}
+		var ps []vsParentRef
+		for _, p := range rt.Parents {
+			var gw *vsGateway
+			for gi := range c.Gateways {
+				if c.Gateways[gi].Name == p.Name {
+					gw = &c.Gateways[gi]
+				}
+			}
+			if gw == nil {
+				continue
+			}
+			if gw.NS != rt.NS || p.NS != nil {
+				p.NS = vsPtr(gw.NS)
+			}
+			if p.Section != nil {
+				ok := false
+				for _, l := range gw.Listeners {
+					if l.Name == *p.Section {
+						ok = true
+					}
+				}
+				if !ok {
+					p.Section = nil
+				}
+			}
+			p.Port = nil
+			sec := ""
+			if p.Section != nil {
+				sec = *p.Section
+			}
+			k := gw.NS + "/" + p.Name + "/" + sec
+			if seen[k] {
+				continue
+			}
+			seen[k] = true
+			ps = append(ps, p)
+		}
+		if len(ps) > 0 {
+			rt.Parents = ps
+		}
+		if r.Chance(1, 2) {
+			rt.Hosts = nil
+		}
+	}
 }
